@@ -405,6 +405,7 @@ static J plan_c07(uint64_t seed, const std::string &tier, bool secrets, const st
       op["k"] = hash_kind(g, true); place(g, op, nobj, nslots); put_req(op, r);
       pre_scribble(g, op, 15, 25, 10);
       if (g.chance(15, 100)) op["phin"] = 1;
+      else if (secrets && g.chance(1, 30)) op["phout"] = 1;   // (erasure plans only: the result of such a call is nobody's promise)
       if (g.chance(15, 100)) op["stin"] = 1;
       if (have_gs && g.chance(1, 4)) op["stsrc"] = "gs";
       else if (g.chance(1, 25)) op["stsrc"] = "out";
